@@ -24,12 +24,17 @@ ASSUMPTIONS = [
     "proved: legs, charge, block structure, storage layout and kernel preconditions are policy/lazy-state independent",
     "shapes enumerated as in C02",
 ]
-NOT_DECIDED = ["contract_with_unroll / oe_blocksparse (opt_einsum-driven, 1.1 kLoC): no contract attempted",
+FUNCTIONS = list(globals().get('FUNCTIONS', [])) + EXTRA_FUNCTIONS
+NOT_DECIDED = ["contract_with_unroll / oe_blocksparse: proved only that slicing does not change the value, on one three-tensor chain per symmetry "
+               "(enumerated slicings, symbolic data); path search (opt_einsum) and checkpointing are outside",
                "svd/qr inside operation sequences enter only through their structural contract (C04)"]
 
 from contracts.c03 import h_unfuse_lazy      # unfuse_legs under a pending transposition == after materialising it
 
 POLICIES = ('fuse_to_matrix', 'fuse_contracted', 'no_fusion')
+EXTRA_FUNCTIONS = ['yastn.tensor.oe_blocksparse:contract_with_unroll', 'yastn.tensor.oe_blocksparse:_contract_with_sliced_unroll', 'yastn.tensor.oe_blocksparse:_build_mask_tensor',
+                   'yastn.tensor.oe_blocksparse:_expand_partial_output', 'yastn.tensor.oe_blocksparse:slice_leg_uniform', 'yastn.tensor.oe_blocksparse:make_sliced_legs',
+                   'yastn.tensor.oe_blocksparse:_convert_path_to_ncon_args']
 
 
 def same_observable(V, name, x, y, sym, exact_layout=False):
@@ -128,6 +133,52 @@ def units(tier):
                 if not th and len(MOD[sym]) > 1 and nd == 3 and lt > 1:
                     continue
                 U.append(('h_fuse_meta', f"{sym},nd={nd},axes={axes},trans={trans},lt={lt}", dict(sym=sym, nd=nd, lt=lt, axes=axes, trans=trans)))
+        for case in ('contracted-by-sector', 'contracted-uniform-2', 'contracted-uniform-1', 'two-contracted', 'open-by-sector', 'open-uniform+contracted'):
+            U.append(('h_unroll_values', f"{sym},{case}", dict(sym=sym, case=case)))
         for (nd, axes, perm) in [(5, ((0, 1), (2, 3, 4)), (1, 0)), (5, ((0, 1), 2, (3, 4)), (2, 0, 1))]:
             U.append(('h_unfuse_lazy', f"{sym},nd={nd},axes={axes},perm={perm},lt=1,which=all", dict(sym=sym, nd=nd, lt=1, axes=axes, perm=perm, which='all')))
     return U
+
+
+def h_unroll_values(V, sym, case):
+    """
+    contract_with_unroll: slicing (unrolling) a contracted or an open index -- per charge sector, inside sectors, uniformly with sizes
+    that do or do not divide the sector dimensions -- does not change the result: dense equality with the un-sliced contraction and
+    with numpy.einsum, for concrete structures and symbolic data
+    """
+    import numpy as np
+    import yastn
+    from contracts.c01 import make_leg, symbolic_tensor, FULL
+    li, lj, lk, ll = make_leg(sym, 1, FULL), make_leg(sym, 1, 0b0111), make_leg(sym, 1, 0b1110 if MOD[sym] else FULL), make_leg(sym, 1, 0b1011)
+    A = symbolic_tensor(V, 'a', sym, [li, lj.conj()])
+    B = symbolic_tensor(V, 'b', sym, [lj, lk.conj()])
+    C = symbolic_tensor(V, 'c', sym, [lk, ll.conj()])
+    if V.symbolic:
+        from contracts.mps_values import AmplitudeProxy        # freshly allocated output arrays must be able to hold symbolic numbers
+        prox = AmplitudeProxy()
+        A, B, C = (x._replace(config=x.config._replace(backend=prox)) for x in (A, B, C))
+    Ad = np.asarray(V.call(A.to_numpy, legs={0: li, 1: lj.conj()}))
+    Bd = np.asarray(V.call(B.to_numpy, legs={0: lj, 1: lk.conj()}))
+    Cd = np.asarray(V.call(C.to_numpy, legs={0: lk, 1: ll.conj()}))
+    args = (A, ('i', 'j'), B, ('j', 'k'), C, ('k', 'l'), ('i', 'l'))
+    path, _ = yastn.get_contraction_path(*args)
+    want = Ad @ Bd @ Cd
+    plain = V.call(yastn.contract_with_unroll, *args, optimize=path)
+    V.check_equal('no-unroll:equals-numpy', np.asarray(V.call(plain.to_numpy, legs={0: li, 1: ll.conj()})).ravel().tolist(), want.ravel().tolist())
+    if case == 'contracted-by-sector':
+        unroll = {'j': yastn.make_sliced_legs(lj)}
+    elif case == 'contracted-uniform-2':
+        unroll = {'j': 2}
+    elif case == 'contracted-uniform-1':
+        unroll = {'k': 1}
+    elif case == 'two-contracted':
+        unroll = {'j': yastn.make_sliced_legs(lj), 'k': 2}
+    elif case == 'open-by-sector':
+        unroll = {'i': yastn.make_sliced_legs(li)}
+    elif case == 'open-uniform+contracted':
+        unroll = {'l': 1, 'j': 2}
+    else:
+        raise ValueError(case)
+    r = V.call(yastn.contract_with_unroll, *args, unroll=unroll, optimize=path)
+    V.check_equal('unrolled:equals-numpy', np.asarray(V.call(r.to_numpy, legs={0: li, 1: ll.conj()})).ravel().tolist(), want.ravel().tolist())
+    V.check('unrolled:same-legs-and-charge-as-plain', r.get_legs() == plain.get_legs() and r.n == plain.n)
